@@ -130,7 +130,7 @@ static int64_t eval_rval(Node *node, char ***label);
 static bool is_const_expr(Node *node);
 static Node *assign(Token **rest, Token *tok);
 static Node *logor(Token **rest, Token *tok);
-static double eval_double(Node *node);
+static long double eval_double(Node *node);
 static Node *conditional(Token **rest, Token *tok);
 static Node *logand(Token **rest, Token *tok);
 static Node *bitor(Token **rest, Token *tok);
@@ -1480,6 +1480,13 @@ write_gvar_data(Relocation *cur, Initializer *init, Type *ty, char *buf, int off
     return cur;
   }
 
+  if (ty->kind == TY_LDOUBLE) {
+    // 10 value bytes; the 6 padding bytes of the image stay zero.
+    long double val = eval_double(init->expr);
+    memcpy(buf + offset, &val, 10);
+    return cur;
+  }
+
   char **label = NULL;
   uint64_t val = eval2(init->expr, &label);
 
@@ -2012,13 +2019,42 @@ int64_t const_expr(Token **rest, Token *tok) {
   return eval(node);
 }
 
-static double eval_double(Node *node) {
+static long double eval_double2(Node *node);
+
+// Evaluate a floating constant expression. Every intermediate result
+// is rounded to the type of its node (FLT_EVAL_METHOD is 0).
+static long double eval_double(Node *node) {
   add_type(node);
 
+  long double val = eval_double2(node);
+  if (node->ty->kind == TY_FLOAT)
+    return (float)val;
+  if (node->ty->kind == TY_DOUBLE)
+    return (double)val;
+  return val;
+}
+
+static long double eval_double2(Node *node) {
   if (is_integer(node->ty)) {
     if (node->ty->is_unsigned)
       return (unsigned long)eval(node);
     return eval(node);
+  }
+
+  // float and double operations are carried out in double (rounding a
+  // double result to float afterwards is exact), long double ones in
+  // long double.
+  if (node->ty->kind != TY_LDOUBLE) {
+    switch (node->kind) {
+    case ND_ADD:
+      return (double)eval_double(node->lhs) + (double)eval_double(node->rhs);
+    case ND_SUB:
+      return (double)eval_double(node->lhs) - (double)eval_double(node->rhs);
+    case ND_MUL:
+      return (double)eval_double(node->lhs) * (double)eval_double(node->rhs);
+    case ND_DIV:
+      return (double)eval_double(node->lhs) / (double)eval_double(node->rhs);
+    }
   }
 
   switch (node->kind) {
